@@ -70,6 +70,9 @@ def run(ctx):
         ctx.guard(unit_agreement, ctx, cfg, fs)
         ctx.guard(nonempty, ctx, cfg, fs)
         ctx.guard(short_name_nonempty, ctx, cfg, fs)
+        import consumers, c08 as c08k
+        # `remaining -= 1` in State::remove cannot underflow because the item is known to be inside the scope and present (shared with C05)
+        ctx.guard(c08k.keep_only, ctx, lambda: consumers.primitives(ctx, cfg, fs, 'I.invariant'), lambda o: o.key.startswith('remove:'), 'I.invariant')
         ctx.guard(dead_arm, ctx, cfg, fs)
         ctx.guard(invariant, ctx, cfg, fs)
         if any(p.startswith('complete_shell::render_') for p in fs.bodies):
